@@ -15,7 +15,7 @@ from ..scoping import NamespaceIds
 from ..text_gen import GeneratedContent, TextBlock
 
 # own modules
-from . import distillate_ns, generate_cpp_code, SupportFileCfg
+from . import distillate_ns, generate_cpp_code, SupportFileCfg, include_guarded
 
 
 def header_hh_template(cpp_ns: str) -> TextBlock:
@@ -74,6 +74,7 @@ def create_header(ns_prefix: Optional[NamespaceIds] = None) -> GeneratedContent:
                          includes=TextBlock(SystemIncludes(['string', 'dzn/meta.hh'])),
                          ns_prefix=ns_prefix)
 
-    return GeneratedContent(filename=f'{file_ns}_MetaHelpers.hh',
-                            contents=str(generate_cpp_code(cfg)),
+    filename = f'{file_ns}_MetaHelpers.hh'
+    return GeneratedContent(filename=filename,
+                            contents=include_guarded(filename, str(generate_cpp_code(cfg))),
                             namespace=namespace)
